@@ -154,7 +154,7 @@ def run(tier, seed, replay=None):
     build = lib.Build().run()
     rep.proof = lib.compile_props(PID)
     rng = lib.rng_for(seed, PID)
-    n = 48 if tier == 'quick' else 800
+    n = 48 if tier == 'quick' else 1200
     root = os.path.join(lib.VERIF, '.run', 'c16-%d' % os.getpid())
     os.makedirs(root, exist_ok=True)
     jobs = []
